@@ -291,6 +291,13 @@ theorem call_sites_fit_published :
         | none => false
         | some ar => decide (ar.1 ≤ site.2) && decide (site.2 ≤ ar.1 + ar.2)) = true := by decide
 
+/-- the scan is not empty-handed: every one of the twenty published handlers has at least one call site in the
+package (a handler whose requests are issued through an extracted helper would vanish from the list — the generator
+also refuses any request call whose handler is not a HANDLE_* constant outside the known forwarders) -/
+theorem call_sites_cover_published :
+    handlerTable.all (fun h => Gen.Consts.callSites.any (fun site => site.1 == h.1)) = true
+    ∧ 20 ≤ Gen.Consts.callSites.length := by decide
+
 /-- all probes ran (none of the live operations raised against a conforming responder) -/
 theorem recorded_probes_ran : Gen.Recorded.probeErrors = [] := by decide
 
